@@ -41,6 +41,14 @@
 // MD for a series of calls; run in a child process with a single P, each case
 // twice.
 //
+// The "cancel" part (cancel.go): how a call stands when its caller's context
+// ends -- every RPC kind (unary, server-, client-, bidi-streaming) x explicit
+// cancellation / deadline expiry x what the handler is doing (waiting on or
+// polling its context or a context derived from it, blocked in RecvMsg, sending)
+// x what the client has done and does with the stream. It also owns the one
+// bounded wait whose expiry is a verdict of this property ("the caller's
+// cancellation does not reach the handler's context"); see there.
+//
 // In the thorough tier the same oracle (minus the in-process-only clauses) is
 // first validated against real grpc-go over bufconn: a disagreement there is an
 // error of the checker.
@@ -70,7 +78,7 @@ import (
 	"verif/seq/common"
 )
 
-const guard = 30 * time.Second // hang guard only; nothing is decided by elapsed time
+const guard = 30 * time.Second // hang guard only (INCONCLUSIVE); the wait for a context that must end is bounded by endBound (cancel.go)
 
 // A deadline that is meant to pass during the call. Nothing is measured against
 // it: the handler simply waits for ctx.Done(). If the machine is so slow that it
@@ -395,6 +403,7 @@ type runState struct {
 	lateLookups int  // accessor look-ups made after the context was done / the call had returned
 	earlyLive   bool // the entry and parked instants were observed on a context that was not done
 	sharedSeen  bool // the handler saw, under one key, values of the caller and of the credentials
+	cut         bool // the instants after the end of the context were left out: the class of the case is known not to see that end
 
 	entered, proceed, cancelReady, afterReturn, handlerDone, icDone chan struct{}
 }
@@ -714,7 +723,7 @@ func (st *runState) drive(cc grpc.ClientConnInterface, base context.Context) {
 	case <-callDone:
 		// only a call whose (short) deadline has already passed may be over before
 		// its handler got as far as the first gate
-		if st.c.end() != "deadline" || ctx.Err() == nil {
+		if st.c.end() != "deadline" || ctx.Err() == nil && time.Now().Before(st.callerDeadline) {
 			st.fail(fmt.Sprintf("the call ended before the handler was entered: %v", callErr))
 			return
 		}
@@ -757,8 +766,8 @@ func (st *runState) drive(cc grpc.ClientConnInterface, base context.Context) {
 		return
 	}
 	close(st.afterReturn)
-	// the handler itself reports a cancellation that never arrives (after the guard)
-	t2 := time.NewTimer(2 * guard)
+	// the handler itself reports a cancellation that never arrives (after its bound)
+	t2 := time.NewTimer(3*guard + endBound + graceAfter)
 	defer t2.Stop()
 	select {
 	case <-st.handlerDone:
@@ -909,8 +918,8 @@ leak:
 		if err := ctx.Err(); err != nil {
 			if st.c.end() != "deadline" {
 				add("spurious-cancel", "handler context already done: "+err.Error())
-			} else if !st.reference && st.callerCtx.Err() == nil {
-				add("spurious-cancel", "handler context done ("+err.Error()+") while the caller's context is not")
+			} else if !st.reference && st.callerCtx.Err() == nil && time.Now().Before(st.callerDeadline) {
+				add("spurious-cancel", "handler context done ("+err.Error()+") while the caller's context is not, nor has its deadline passed")
 			} else {
 				st.mu.Lock()
 				st.earlyLive = false
@@ -924,7 +933,9 @@ leak:
 	case "after-deadline":
 		if err := ctx.Err(); err != context.DeadlineExceeded && err != context.Canceled {
 			add("cancel-wrong-error", fmt.Sprintf("after the caller's deadline, ctx.Err() = %v", err))
-		} else if !st.reference && st.callerCtx.Err() == nil {
+		} else if !st.reference && st.callerCtx.Err() == nil && time.Now().Before(st.callerDeadline) {
+			// (an implementation may run a timer of its own for the caller's deadline, as a
+			// server across a network does: the two fire in either order, neither early)
 			add("spurious-cancel", "handler context done ("+err.Error()+") while the caller's context, whose deadline has not passed, is not")
 		}
 	}
@@ -1084,20 +1095,11 @@ func (st *runState) handle(ctx context.Context) error {
 	}
 	defer close(st.handlerDone)
 	close(st.cancelReady)
-	t := time.NewTimer(guard)
-	defer t.Stop()
-	select {
-	case <-ctx.Done():
-		st.setPhase(3)
-		st.probe(ctx, "handler", "after-"+end)
-	case <-t.C:
-		if end == "cancel" {
-			add("cancel-not-propagated", "after-cancel", "the caller cancelled its context; the handler context is still not done after the hang guard")
-		} else {
-			add("cancel-not-propagated", "after-deadline", "the caller's deadline passed long ago; the handler context is still not done after the hang guard")
-		}
+	if !st.awaitEnd(ctx, end) {
 		return errHandlerDone
 	}
+	st.setPhase(3)
+	st.probe(ctx, "handler", "after-"+end)
 	if !wait(st.afterReturn) {
 		st.fail("hang: harness did not report the return of the call")
 		return errHandlerDone
@@ -1105,6 +1107,61 @@ func (st *runState) handle(ctx context.Context) error {
 	st.probe(ctx, "handler", "returned-after-"+end)
 	st.setPhase(4)
 	return errHandlerDone
+}
+
+// awaitEnd is the handler's wait for the end of its context after the caller
+// has cancelled (or the caller's deadline has passed). Its bound is counted
+// from the moment at which this goroutine has itself seen the caller's context
+// done (see cancel.go: awaitDone). A context that does not end within the
+// bound is the violation "the caller's cancellation does not reach the
+// handler's context"; the class of the case is then registered in `stuck`, and
+// the later cases of that class (and the cases of every class that the cancel
+// part has found stuck before this sweep began) only look, after a bounded
+// number of yields, whether the context has ended and, if it has not, go on
+// without the instants that follow the end of the context.
+func (st *runState) awaitEnd(ctx context.Context, end string) bool {
+	t := time.NewTimer(guard)
+	defer t.Stop()
+	select {
+	case <-ctx.Done():
+		return true
+	case <-st.callerCtx.Done():
+	case <-t.C:
+		st.fail("hang: the caller's context did not end (" + end + ")")
+		return false
+	}
+	class := classOf(st.c, st.reference)
+	if stuck.has(class) {
+		for i := 0; i < lookups; i++ {
+			select {
+			case <-ctx.Done():
+				return true
+			default:
+			}
+			runtime.Gosched()
+		}
+		select {
+		case <-ctx.Done():
+			return true
+		default:
+		}
+		st.mu.Lock()
+		st.cut = true
+		st.mu.Unlock()
+		return false
+	}
+	since := time.Now()
+	if awaitDone(ctx.Done()) {
+		return true
+	}
+	stuck.add(class, "main sweep: "+st.c.String())
+	what := "the caller cancelled its context"
+	if end == "deadline" {
+		what = "the caller's deadline passed"
+	}
+	st.add("cancel-not-propagated", "handler", "after-"+end, fmt.Sprintf("%s; the handler context is still not done %v after the handler's own goroutine saw the caller's context done (bound %v, then %d yields and %v more)",
+		what, time.Since(since).Round(time.Millisecond), endBound, lookups, graceAfter))
+	return false
 }
 
 type wrappedSS struct {
